@@ -163,17 +163,29 @@ def draw (s : St) : St × Nat :=
   | [] => (s, s.dflt)
   | r :: rs => ({ s with rnd := rs }, r)
 
-/-- the in-place 3-sort of `beg`, `mid`, `end` for median-of-three -/
+/-- `if (cmp(at(a), at(b)) < 0) swap(at(a), at(b))` -/
+def condSwap (s : St) (lo cnt a b : Nat) : R St := do
+  let (s, c) ← cmpAt s lo cnt a b
+  if c < 0 then swapAt s lo cnt a b else pure s
+
+/-- the in-place 3-sort of `beg`, `mid`, `end` for median-of-three:
+`if (end < beg) swap(end, beg); if (mid < beg) swap(mid, beg); else if (end < mid) swap(end, mid)` -/
 def med3 (s : St) (lo cnt : Nat) : R St := do
-  let e := cnt - 1
-  let m := (cnt - 1) / 2
-  let (s, c) ← cmpAt s lo cnt e 0
-  let s ← if c < 0 then swapAt s lo cnt e 0 else pure s
-  let (s, c) ← cmpAt s lo cnt m 0
-  if c < 0 then swapAt s lo cnt m 0
-  else do
-    let (s, c) ← cmpAt s lo cnt e m
-    if c < 0 then swapAt s lo cnt e m else pure s
+  let s ← condSwap s lo cnt (cnt - 1) 0
+  let (s, c) ← cmpAt s lo cnt ((cnt - 1) / 2) 0
+  if c < 0 then swapAt s lo cnt ((cnt - 1) / 2) 0
+  else condSwap s lo cnt (cnt - 1) ((cnt - 1) / 2)
+
+/-- the pivot choice of `cstl_raw_array_qsort` (`count > 1`): `rand() % count`,
+the middle position after the 3-sort, or position 0 -/
+def pickPivot (algo : Nat) (s : St) (lo cnt : Nat) : R (St × Nat) :=
+  if algo = 1 then
+    let (s, r) := draw s
+    pure (s, r % cnt)
+  else if algo = 2 then do
+    let s ← med3 s lo cnt
+    pure (s, (cnt - 1) / 2)
+  else pure (s, 0)
 
 /-- `cstl_raw_array_qsort`; `algo`: 1 = random pivot, 2 = median of three,
 anything else = first element.  Fuel = nesting depth of calls with
@@ -182,14 +194,7 @@ def qsort (algo : Nat) : Nat → St → Nat → Nat → R St
   | 0, s, _, cnt => if cnt > 1 then .error .fuel else pure s
   | f + 1, s, lo, cnt =>
     if cnt > 1 then do
-      let (s, p) ←
-        (if algo = 1 then
-          let (s, r) := draw s
-          pure (s, r % cnt)
-        else if algo = 2 then do
-          let s ← med3 s lo cnt
-          pure (s, (cnt - 1) / 2)
-        else pure (s, 0) : R (St × Nat))
+      let (s, p) ← pickPivot algo s lo cnt
       if algo ≠ 2 ∨ cnt > 3 then do
         let (s, m) ← partition s lo cnt p
         let s ← qsort algo f s lo (m + 1)
@@ -199,22 +204,29 @@ def qsort (algo : Nat) : Nat → St → Nat → Nat → R St
 
 /-! ### heapsort -/
 
-/-- `cstl_raw_array_hsort_b(arr+lo, cnt, n)`: one fuel unit per loop iteration -/
+/-- the body of the `hsort_b` loop that selects `c`: `n` itself or its greater
+child when that child is greater than `n` (`l = 2n+1`, `r = l+1`; the second
+comparison is against the current candidate `c`) -/
+def pickChild (s : St) (lo cnt n : Nat) : R (St × Nat) := do
+  let l := 2 * n + 1
+  let r := l + 1
+  let (s, c) ←
+    (if l < cnt then do
+      let (s, x) ← cmpAt s lo cnt l n
+      pure (s, if x > 0 then l else n)
+    else pure (s, n) : R (St × Nat))
+  if r < cnt then do
+    let (s, x) ← cmpAt s lo cnt r c
+    pure (s, if x > 0 then r else c)
+  else pure (s, c)
+
+/-- `cstl_raw_array_hsort_b(arr+lo, cnt, n)`: one fuel unit per loop iteration
+(the swap at the top of the C loop body is the one decided at the bottom of
+the previous iteration) -/
 def siftDown (lo cnt : Nat) : Nat → St → Nat → R St
   | 0, _, _ => .error .fuel
   | f + 1, s, n => do
-    let l := 2 * n + 1
-    let r := l + 1
-    let (s, c) ←
-      (if l < cnt then do
-        let (s, x) ← cmpAt s lo cnt l n
-        pure (s, if x > 0 then l else n)
-      else pure (s, n) : R (St × Nat))
-    let (s, c) ←
-      (if r < cnt then do
-        let (s, x) ← cmpAt s lo cnt r c
-        pure (s, if x > 0 then r else c)
-      else pure (s, c) : R (St × Nat))
+    let (s, c) ← pickChild s lo cnt n
     if n ≠ c then do
       let s ← swapAt s lo cnt n c
       siftDown lo cnt f s c
